@@ -6,6 +6,7 @@ import (
 	"encoding/hex"
 	"fmt"
 	"io"
+	"strings"
 )
 
 type Reader struct {
@@ -151,6 +152,13 @@ func (p *Reader) ReadCStringNWithoutTrim(n int) string {
 	}
 
 	return string(temp)
+}
+
+// ReadFixedBinaryN reads a fixed-width binary field of n octets (e.g. a 16-octet
+// MD5 authenticator). Only the NUL padding on the right is removed; NUL octets
+// inside the value are data and are kept.
+func (p *Reader) ReadFixedBinaryN(n int) string {
+	return strings.TrimRight(p.ReadCStringNWithoutTrim(n), "\x00")
 }
 
 func (p *Reader) ReadCString() string {
